@@ -183,18 +183,25 @@ structure Extract where
   over : SMap
 deriving DecidableEq, Repr
 
-/-- the parameter loop of the general path: constraint check, then the write, parameter by parameter;
-on a failed constraint the writes already made stay behind (only the overflow map is visible later) -/
-def extractParams (sat : Nat → Bytes → Bool) (segs : List Bytes) :
-    Nat → List (Nat × Bytes × Option Nat) → List (Bytes × Bytes) → SMap → Bool × List (Bytes × Bytes) × SMap
-  | _, [], slots, over => (true, slots, over)
-  | i, (pos, name, c) :: rest, slots, over =>
+/-- the first parameter loop of the general path: every position exists and every constraint accepts
+its segment (nothing is written yet) -/
+def paramsValid (sat : Nat → Bytes → Bool) (segs : List Bytes) : List (Nat × Bytes × Option Nat) → Bool
+  | [] => true
+  | (pos, _, c) :: rest =>
     match segs[pos]? with
-    | none => (false, slots, over)
+    | none => false
     | some value =>
-      if (match c with | some cid => !sat cid value | none => false) then (false, slots, over)
-      else if i < 8 then extractParams sat segs (i + 1) rest (slots ++ [(name, value)]) over
-      else extractParams sat segs (i + 1) rest slots (SMap.set name value over)
+      if (match c with | some cid => !sat cid value | none => false) then false
+      else paramsValid sat segs rest
+
+/-- the second parameter loop: the writes, the first eight into the inline slots, the rest into the map -/
+def paramsWrite (segs : List Bytes) :
+    Nat → List (Nat × Bytes × Option Nat) → List (Bytes × Bytes) → SMap → List (Bytes × Bytes) × SMap
+  | _, [], slots, over => (slots, over)
+  | i, (pos, name, _) :: rest, slots, over =>
+    let value := (segs[pos]?).getD []
+    if i < 8 then paramsWrite segs (i + 1) rest (slots ++ [(name, value)]) over
+    else paramsWrite segs (i + 1) rest slots (SMap.set name value over)
 
 /-- `(*CompiledRoute).matchAndExtract(path, ctx)`; `over` is the context's overflow map as earlier
 candidates left it. `emptyOK` selects the 2-segment fast path as shipped before the K11b repair. -/
@@ -232,13 +239,15 @@ def matchAndExtractGen (emptyOK : Bool) (sat : Nat → Bytes → Bool) (r : CRou
         if segs.length ≠ n then (false, ⟨[], over⟩)
         else if !(r.statics.all fun (pos, s) => segs[pos]? = some s) then (false, ⟨[], over⟩)
         else
-          let (ok, slots, over1) := extractParams sat segs 0 r.params [] over
-          (ok, ⟨slots, over1⟩)
+          if !paramsValid sat segs r.params then (false, ⟨[], over⟩)
+          else
+            let (slots, over1) := paramsWrite segs 0 r.params [] over
+            (true, ⟨slots, over1⟩)
 
 def matchAndExtract := matchAndExtractGen false
 
-/-- the candidate scan of `MatchDynamic`: first route of the method that matches; the overflow map is
-threaded through the failed candidates -/
+/-- the candidate scan of `MatchDynamic`: first route of the method that matches (a candidate that
+fails writes nothing since 47bf5ea; the context is threaded through all the same) -/
 def scan (sat : Nat → Bytes → Bool) (method path : Bytes) : List CRoute → SMap → Option (CRoute × Extract)
   | [], _ => none
   | r :: rest, over =>
